@@ -86,6 +86,39 @@ fn undo_history_check(case: &Value, stats: &mut Stats) -> CheckResult {
     Ok(())
 }
 
+/// Start positions as the library itself produces them from unvalidated input (normalisation paths of the gate,
+/// FEN parsing), followed by a short history.
+fn fresh_check(case: &Value, stats: &mut Stats) -> CheckResult {
+    let p = crate::gen::raw::raw_from_json(&case["raw"]).map_err(|e| Failure::new(format!("harness: {}", e)))?;
+    let raw = raw_from_ref(&p);
+    let path = case_path(case);
+    for (how, b) in [("try_from", Board::try_from(raw).ok()), ("from_fen", if p.ep.map_or(true, |s| rank_of(s) == if p.side == Col::W { 4 } else { 3 }) { Board::from_fen(&raw.as_fen()).ok() } else { None })] {
+        let b = match b {
+            Some(b) => b,
+            None => {
+                stats.label("refused");
+                continue;
+            }
+        };
+        check_consistent(&b, &format!("board fresh from {}", how))?;
+        let changed = *b.raw() != raw;
+        stats.label_if(changed, "normalised_by_gate");
+        stats.label_if(changed && b.raw().ep_source != raw.ep_source, "mark_dropped_by_gate");
+        walk(&b, &path, false, &mut |pos| check_consistent(pos, "after a move from a fresh board"))?;
+        if changed {
+            stats.nontrivial(&(p.rep_key(), how));
+        }
+    }
+    Ok(())
+}
+
+fn gen_fresh_case(cur: &mut Cursor) -> Value {
+    let (p, src) = crate::gen::raw::gen_raw(cur);
+    let n = cur.below(12);
+    let path: Vec<u8> = (0..n).map(|_| cur.u8()).collect();
+    json!({"raw": crate::gen::raw::raw_to_json(&p, src), "path": path})
+}
+
 // ------------------------------------------------------------------------------------------
 // metamorphic: transpositions and counters
 
@@ -264,7 +297,8 @@ pub fn property() -> Property {
         rule: "histories: valid start positions (12 sources) + byte paths interpreted as nested make/unmake sequences over semilegal and \
                null moves (up to ~120 steps, deeper in thorough); after every move (and, in undo_histories, after every unmake and in \
                every transient illegal position) stored hash == RawBoard::zobrist_hash() and white/black/combined/13 piece sets == sets \
-               rebuilt from the squares. transpositions: a x b y vs b x a y (reference-legal in both orders, same squares/side/rights/mark) \
+               rebuilt from the squares. fresh_boards: the same invariant on boards fresh from the validation gate and the FEN parser \
+               (raw boards that need normalisation included) and after a few moves from them. transpositions: a x b y vs b x a y (reference-legal in both orders, same squares/side/rights/mark) \
                must hash equally; changing only the counters leaves the hash unchanged. key_distinctness (exhaustive): every square x \
                every unordered pair of the 13 cell values (no pawns on back ranks), side, all 120 pairs of rights sets, all pairs of the 9 \
                possible ep marks per side to move, on two base boards: hashes differ. Non-trivial = history with a capture / special move / undo; distinct by (start position, path).",
@@ -285,6 +319,15 @@ pub fn property() -> Property {
                 check: undo_history_check,
                 configs: Configs::Both,
                 required: &["undo_checked", "illegal_rollback"],
+                regressions: &[],
+                exhaustive: false,
+            },
+            SubCheck {
+                name: "fresh_boards",
+                driver: Driver::Generated { gen: gen_fresh_case, genome_len: 288, quick: 400_000, thorough: 8_000_000 },
+                check: fresh_check,
+                configs: Configs::ReleaseOnly,
+                required: &["normalised_by_gate", "mark_dropped_by_gate", "refused"],
                 regressions: &[],
                 exhaustive: false,
             },
